@@ -20,13 +20,13 @@ var names = []string{"", "f", "_Z1fv", "<unknown>", "a<b>", "(x)::y"}
 
 // Generator coordinates (see Run for the bounds).
 const (
-	nLayouts = 10
+	nLayouts = 11
 	nFlags   = 4
 	nPre     = 6
 	nSrc     = 5
 )
 
-var layoutNames = []string{"A", "A+B", "A+nofile+nomapping-loc", "nofile-main+B", "A+[vdso]@0", "url-file+B", "dangling+A+B", "no mappings", "A+A2 (same file)", "fake mapping 0-0 with a file name"}
+var layoutNames = []string{"A", "A+B", "A+nofile+nomapping-loc", "nofile-main+B", "A+[vdso]@0", "url-file+B", "dangling+A+B", "no mappings", "A+A2 (same file)", "fake mapping 0-0 with a file name", "A+B with return addresses on and past A's limit"}
 var flagNames = []string{"none", "m0:F", "m0:file,m1:all", "m0:line,m1:F"}
 // index 6 (the largest id there is: no fresh id is left) is used by the end-to-end family only
 var preNames = []string{"unsymbolized", "ids 1,2,3", "ids 2,4,7", "ids 3,1,2", "ids 100,200,300", "ids 1,2,5", "ids 1,2,2^64-1"}
@@ -182,6 +182,12 @@ func build(cs *Case, w *world) (*profile.Profile, plugin.MappingSources) {
 		maps = append(maps, mkMap(1, 0, 0, 0, "/bin/a", ""))
 		locsA(0)
 		lm = []int{0}
+	case 10: // locations of A at its limit and beyond (a return address after the last call of a segment)
+		A()
+		B()
+		locsA(0)
+		locsB(1)
+		locs = append(locs, locSpec{0x2000, 0}, locSpec{0x2001, 0})
 	case 8: // two segments of the same binary
 		A()
 		maps = append(maps, mkMap(2, 0x2000, 0x3000, 0x1000, "/bin/a", "ba"))
